@@ -4,7 +4,7 @@ from vlib import *
 import props
 
 ID = "C06"
-INFO = ("YDamage (TLA+ reference): 116 damage operators plus six truncation operators (tape-driven flow collections whose closing bracket never comes) covering the fifteen classes of the property (unclosed quotes / flow collections, mismatched closers, tab indentation (also of the continuation lines of scalars and flow collections), compact collections after a tab, entries "
+INFO = ("YDamage (TLA+ reference): 123 damage operators plus six truncation operators (tape-driven flow collections whose closing bracket never comes) covering the fifteen classes of the property (unclosed quotes / flow collections, mismatched closers, tab indentation (also of the continuation lines of scalars and flow collections), compact collections after a tab, entries "
         "between two open levels, flow collections continued no deeper than their block (also behind an anchor or tag in a sequence entry, as a mapping value and as an explicit key), quoted implicit keys spanning lines, quoted scalars continued no deeper than their block collection, 1025-character keys, second root nodes, unknown / truncated "
         "escapes, alias without anchor, undeclared handle, repeated %YAML, directives (also reserved ones, also in later documents) without '---', content after '...'), each built so that the result is ill-formed whatever precedes "
         "it. Gen_Damage: TLC applies every operator (inline fragments in 6 placements: own document, block sequence entry, mapping value, flow sequence entry after a plain / an explicit entry, flow mapping value) after every well-formed stream of the C03 renderer (all tapes of length 3 + simulated long tapes) and after the empty "
